@@ -746,8 +746,13 @@ func (stmt *InjectorProviderCallStmt) buildArguments(varPool *VarPool) []ast.Exp
 
 // buildProviderCall builds the provider function call expression
 func (stmt *InjectorProviderCallStmt) buildProviderCall(args []ast.Expr) []ast.Expr {
+	var ellipsis token.Pos
+	if stmt.Provider.IsVariadic && len(args) > 0 {
+		ellipsis = 1 // the slice provided for a variadic parameter is spread: f(a, opts...)
+	}
 	return []ast.Expr{
 		&ast.CallExpr{
+			Ellipsis: ellipsis,
 			Fun: &ast.CallExpr{
 				Fun: &ast.SelectorExpr{
 					X:   stmt.Provider.ASTExpr,
